@@ -48,7 +48,7 @@ For each change i=1..{n} write into {wt}-out/m<i>/:
  - meta.json : {{"property": "{pid}", "summary": "...", "needs": "what specific input/sequence/condition it needs to manifest",
    "verified": "what you ran and observed with and without the change"}}
 Verify each yourself: demo passes on the clean worktree, fails with the change; the test suite still passes with it.
-Between changes restore the worktree with `git -C {wt} checkout -- .`. Leave the worktree clean at the end.
+Between changes restore the worktree with `git -C {wt} checkout -- .` (do NOT use `git stash`: the stash is shared by all worktrees of the repository). Leave the worktree clean at the end.
 Final answer: a one-line summary per change.
 {prev_txt}"""
 open(wt + '-task.md', 'w').write(task)
